@@ -163,6 +163,74 @@ def run_exotic(R):
     R.cov['node_object_families'] = hist
 
 
+# ---------- DiGraph.add_node / add_edge after construction, then the read-only API ----------
+def run_mutators(R):
+    """histories of add_node / add_edge on a constructed graph (duplicates must raise RuntimeError and leave G unchanged),
+    compared step by step with the model (add_node_r / add_edge_r), then nodes / edges / sources / next are read back"""
+    from pyModelChecking.graph import DiGraph
+    rng = random.Random(R.seed + 131)
+    H = []
+    for _ in range(1500 if R.thorough else 160):
+        n = rng.randint(0, 4)
+        V = list(range(n))
+        E = rand_digraph(rng, n) if n else []
+        ops = []
+        for _ in range(rng.randint(1, 6)):
+            if rng.random() < 0.35:
+                ops.append(('addnode', rng.randint(0, n + 2)))
+            else:
+                ops.append(('addedge', rng.randint(0, n + 2), rng.randint(0, n + 2)))
+        H.append((V, E, ops))
+    live = []
+    for V, E, ops in H:
+        G = DiGraph(V=V, E=E)
+        live.append({'G': G, 'g': graph_sx(G), 'ok': True, 'trace': []})
+    maxlen = max(len(h[2]) for h in H)
+    for step in range(maxlen):
+        cmds, idx = [], []
+        for i, (V, E, ops) in enumerate(H):
+            if step < len(ops) and live[i]['ok']:
+                op = ops[step]
+                cmds.append([op[0], live[i]['g']] + list(op[1:]))
+                idx.append(i)
+        outs = model_batch_parallel(cmds) if cmds else []
+        for i, o in zip(idx, outs):
+            st = live[i]
+            op = H[i][2][step]
+            G = st['G']
+            before = gset(G)
+            r = call(lambda: G.add_node(op[1]) if op[0] == 'addnode' else G.add_edge(op[1], op[2]))
+            R.evaluations += 1
+            m_ok = (o[0] == 'ok')
+            after = gset(G)
+            if m_ok:
+                st['g'] = o[1]
+                exp = mset(o[1])
+                good = (r[0] == 'ok' and after == exp)
+            else:
+                good = (r == ('err', 'RuntimeError') and after == before)
+            st['trace'].append((op, r[0] if r[0] == 'ok' else r[1]))
+            if not good:
+                st['ok'] = False
+                R.violation('DiGraph.%s after construction differs from the proved model' % ('add_node' if op[0] == 'addnode' else 'add_edge'),
+                            {'stream': 'mutators', 'V': H[i][0], 'E': H[i][1], 'ops': [list(x) for x in H[i][2][:step + 1]], 'impl': [r, after],
+                             'model': ['ok', mset(o[1])] if m_ok else ['err', o[1]]})
+    # read-only API on the final graphs
+    for i, st in enumerate(live):
+        if not st['ok']:
+            continue
+        G = st['G']
+        exp_nodes, exp_edges = mset(st['g'])
+        got = (sorted(G.nodes()), sorted(G.edges()), sorted(G.sources()), sorted((v, sorted(G.next(v))) for v in G.nodes()))
+        want = (exp_nodes, exp_edges, sorted({a for a, _ in exp_edges}), sorted((v, sorted(b for a, b in exp_edges if a == v)) for v in exp_nodes))
+        if got != want:
+            R.violation('nodes()/edges()/sources()/next() after add_node/add_edge differ from the model',
+                        {'stream': 'mutators', 'V': H[i][0], 'E': H[i][1], 'ops': [list(x) for x in H[i][2]], 'impl': got, 'model': want})
+        else:
+            R.nontriv(('mut', tuple(H[i][0]), tuple(sorted(H[i][1])), tuple(H[i][2])))
+    R.cov['mutator_histories'] = len(H)
+
+
 def run(R):
     R.rule = ('(digraph, node subset X) pairs: all digraphs with <= 3 nodes x all subsets of nodes+one foreign node '
               '(every 11th 4-node graph in quick, every 2nd in thorough), random n <= 12; observables: reachable set / RuntimeError, '
@@ -170,6 +238,7 @@ def run(R):
               'non-trivial = reach set strictly between X and all nodes, or subgraph drops at least one edge and keeps one')
     rng = R.rng
     run_exotic(R)
+    run_mutators(R)
     cases = []
     for n in range(0, 4):
         nodes = list(range(n))
